@@ -74,7 +74,44 @@ Propagate(res, kids) ==
             <<IF res[4][1] = -1 THEN fs ELSE res[4][1], IF res[4][2] = -1 THEN le ELSE res[4][2]>>,   \* own span: only if unset (an inlined ?rule child keeps its own)
             <<fs, le>>>>                                                                               \* container span: always
 
-\* the whole callback of a rule
+\* the whole callback of a rule (LALR; Earley with ambiguity='resolve')
 Callback(rule, kids, pp) ==
   LET res == Node(rule, Filtered(rule, kids)) IN IF pp THEN Propagate(res, kids) ELSE res
+
+\* ---- ambiguity='explicit' / 'forest' transformation: two more wrappers around the same chain ------------------------
+\*   AmbiguousIntermediateExpander( AmbiguousExpander( PropagatePositions( ChildFilter( ExpandSingleChild( Tree )))))
+IsAmbig(v) == IsTree(v) /\ v[2] = "_ambig"
+RECURSIVE ConcatSeqs(_, _)
+ConcatSeqs(ss, i) == IF i > Len(ss) THEN <<>> ELSE ss[i] \o ConcatSeqs(ss, i + 1)
+AmbigNode(cs) == <<"R", "_ambig", cs, Unset, Unset>>
+\* Tree.expand_kids_by_data('_ambig'): _ambig children of an _ambig child are alternatives of that child (one level)
+FlattenAmbig(v) ==
+  IF IsAmbig(v) THEN <<"R", "_ambig", ConcatSeqs([q \in DOMAIN v[3] |-> IF IsAmbig(v[3][q]) THEN v[3][q][3] ELSE <<v[3][q]>>], 1), v[4], v[5]>>
+  ELSE v
+\* maybe_create_ambiguous_expander: the positions whose _ambig child is distributed over copies of the parent
+ToExpand(rule) == {i \in DOMAIN rule.syms : rule.keepall \/ (~(rule.syms[i].isterm /\ rule.syms[i].filter_out) /\ rule.syms[i].inl)}
+\* itertools.product(*lists): the first list varies slowest
+RECURSIVE Prod(_, _)
+Prod(ls, i) ==
+  IF i > Len(ls) THEN << <<>> >>
+  ELSE LET rest == Prod(ls, i + 1) IN ConcatSeqs([a \in DOMAIN ls[i] |-> [r \in DOMAIN rest |-> <<ls[i][a]>> \o rest[r]]], 1)
+AmbExpand(rule, kids, pp) ==
+  IF ToExpand(rule) = {} THEN Callback(rule, kids, pp)                       \* no expander is created for this rule
+  ELSE LET ks == [i \in DOMAIN kids |-> FlattenAmbig(kids[i])]              \* (in place, whether or not the child is distributed)
+           amb == {i \in ToExpand(rule) \cap DOMAIN ks : IsAmbig(ks[i])}
+       IN IF amb = {} THEN Callback(rule, ks, pp)
+          ELSE LET combos == Prod([i \in DOMAIN ks |-> IF i \in amb THEN ks[i][3] ELSE <<ks[i]>>], 1)
+               IN AmbigNode([c \in DOMAIN combos |-> Callback(rule, combos[c], pp)])
+\* an ambiguous intermediate node (several ways to split the first symbols of the rule) arrives as an _iambig first child
+\* whose _inter children hold the alternatives; nested ones are collapsed recursively
+RECURSIVE Collapse(_)
+Collapse(kids) ==
+  IF kids # <<>> /\ IsTree(kids[1]) /\ kids[1][2] = "_iambig"
+  THEN LET rest == Tail(kids)
+           per(g) == LET col == Collapse(g[3]) IN IF col # <<>> THEN [q \in DOMAIN col |-> col[q] \o rest] ELSE << g[3] \o rest >>
+       IN ConcatSeqs([q \in DOMAIN kids[1][3] |-> per(kids[1][3][q])], 1)
+  ELSE <<>>
+CallbackAmb(rule, kids, pp) ==
+  LET col == Collapse(kids) IN
+  IF col # <<>> THEN AmbigNode([q \in DOMAIN col |-> AmbExpand(rule, col[q], pp)]) ELSE AmbExpand(rule, kids, pp)
 =============================================================================
